@@ -51,7 +51,7 @@ def raw_paths(facts, limit=6000, path=TICK):
 PURE = ("Deref>::deref", "DerefMut>::deref_mut", "::deref", "::deref_mut", "Clone>::clone", "::clone", "::count", "::item_count", "Duration::from_millis", "MultiPattern::status",
         "PartialEq::ne", "PartialEq::eq", "::eq", "::ne", "::is_some", "::is_none", "::into", "::from", "::as_ref", "::as_mut", "::borrow", "::borrow_mut", "Try>::branch",
         "FromResidual>::from_residual", "::then", "::ok_or", "::ok", "::unwrap_or", "::is_empty", "::len", "Status::then", "BitOr>::bitor", "BitOrAssign>::bitor_assign",
-        "::max", "::min", "Ord>::cmp", "PartialOrd>::gt", "PartialOrd>::lt", "PartialOrd>::ge", "PartialOrd>::le", "Duration::from_secs", "Default>::default")
+        "::max", "::min", "Ord>::cmp", "::ptr_eq", "::strong_count", "::then_some", "PartialOrd>::gt", "PartialOrd>::lt", "PartialOrd>::ge", "PartialOrd>::le", "Duration::from_secs", "Default>::default")
 
 
 def _short(name):
@@ -141,7 +141,7 @@ class PathCanon:
             if not fields:
                 head, _, var = name.rpartition("::")
                 return ("const", "%s::%s" % (head.rsplit("::", 1)[-1], var))
-            return ("agg", name.rsplit("::", 1)[0].rsplit("::", 1)[-1], fields)
+            return ("agg", "::".join(name.split("::")[-2:]), fields)
         if k == "upd":
             return ("upd", self.canon(e[1]), tuple(sorted((n, self.canon(v)) for n, v in e[2].items())))
         if k == "tuple":
@@ -169,9 +169,13 @@ class PathCanon:
             if (name.endswith("::ne") or name.endswith("::eq")) and len(args) == 2:
                 return simp(("bin", "Ne" if name.endswith("ne") else "Eq", args[0], args[1]))
             if (name.endswith("::is_some") or name.endswith("::is_none")) and len(args) == 1:
-                return ("optis", args[0], "Some" if name.endswith("is_some") else "None")
+                return fold_std(("optis", args[0], "Some" if name.endswith("is_some") else "None"))
+            if name.endswith("::unwrap_or") and len(args) == 2:
+                return fold_std(("call", "unwrap_or", args, 0))
             if name.endswith("Clone>::clone") or name.endswith("::clone"):
                 return ("clone", args[0])
+            if "<bool as " in name and name.endswith("Default>::default"):
+                return ("const", 0)
             if name.endswith("Duration::from_millis"):
                 return ("millis", args[0])
             ph = self.callphase.get(cid, 0)
@@ -341,8 +345,18 @@ class PathCanon:
                 return e
             if e[0] in ("ref", "deref"):
                 return sub(e[1])
-            if e[0] == "field" and e[2] in caps:
-                return caps[e[2]]
+            if e[0] == "field":
+                inner = strip_casts(e[1])
+                while isinstance(inner, tuple) and inner and inner[0] in ("ref", "deref"):
+                    inner = strip_casts(inner[1])
+                if isinstance(inner, tuple) and inner and inner[0] == "arg" and e[2] in caps:
+                    return caps[e[2]]
+                b_ = sub(e[1])
+                if isinstance(b_, tuple) and b_ and b_[0] == "agg" and e[2] in dict(b_[2]):
+                    return dict(b_[2])[e[2]]
+                if e[2] in caps:
+                    return caps[e[2]]
+                return ("field", b_, e[2])
             if e[0] == "call" and any(str(e[1]).endswith(x) for x in ("Deref>::deref", "DerefMut>::deref_mut")):
                 return sub(e[2][0])
             if e[0] == "const":
@@ -353,6 +367,31 @@ class PathCanon:
         t = runs[0][1]
         a = [sub(cfn.expr_of_operand(x)) for x in t["args"]]
         return ("spawn", a[0], tuple(a[1:]))
+
+
+def _opt_variant(x):
+    if isinstance(x, tuple) and x:
+        if x[0] == "const" and isinstance(x[1], str) and x[1].rsplit("::", 1)[-1] in ("None", "Some", "Ok", "Err"):
+            return x[1].rsplit("::", 1)[-1]
+        if x[0] == "agg" and x[1].rsplit("::", 1)[-1] in ("None", "Some", "Ok", "Err"):
+            return x[1].rsplit("::", 1)[-1]
+    return None
+
+
+def fold_std(e):
+    """Option helpers applied to a value whose variant is known."""
+    if e[0] == "optis":
+        v = _opt_variant(e[1])
+        if v is not None:
+            return ("const", int(v == e[2]))
+        return e
+    if e[0] == "call" and e[1] == "unwrap_or" and len(e[2]) == 2:
+        v = _opt_variant(e[2][0])
+        if v == "Some":
+            return dict(e[2][0][2]).get("0", e)
+        if v == "None":
+            return e[2][1]
+    return e
 
 
 def simp(e):
@@ -422,7 +461,9 @@ def subst(e, known):
         k_ = known.get(e[1])
         if isinstance(k_, frozenset) and len(k_) == 1:
             return ("const", int(next(iter(k_)) == e[2]))
-        return e
+        return fold_std(("optis", subst(e[1], known), e[2]))
+    if e[0] == "call" and e[1] == "unwrap_or":
+        return fold_std(("call", "unwrap_or", tuple(subst(a, known) for a in e[2]), e[3]))
     if e[0] == "agg":
         return ("agg", e[1], tuple((n, subst(v, known)) for n, v in e[2]))
     if e[0] == "upd":
@@ -549,12 +590,15 @@ def _effective(events):
         if e[0] == "atomic":
             flags.append(e)
             continue
+        if e[0] == "call" and e[1] == "reset_status" and not run:
+            res.append(e)       # the pattern's own status and the two flags are independent: hoisted over pending flag stores
+            continue
         res.extend(sorted(run, key=fmt))
-        res.extend(flags)
+        res.extend(sorted(flags, key=lambda f: f[1]))      # per flag in program order; different flags commute
         run, flags = [], []
         res.append(e)
     res.extend(sorted(run, key=fmt))
-    res.extend(flags)
+    res.extend(sorted(flags, key=lambda f: f[1]))
     return res
 
 
@@ -624,6 +668,7 @@ def protocol_violations(paths):
 
     for known, events in paths:
         ev = _own(known, events)
+        raw = [subst(x, known) for x in events]
         s0 = known.get(("init", ("self", "state")))
         lock_pos = {}
         for i, e in enumerate(ev):
@@ -638,7 +683,7 @@ def protocol_violations(paths):
             return known.get(("trylock", k)) == frozenset(["Some"])
 
         # C13.disarm-first
-        first = next((e for e in ev if e[0] in ("atomic", "lock", "trylock", "spawn", "update")), None)
+        first = next((e for e in raw if e[0] in ("atomic", "lock", "trylock", "spawn", "update")), None)
         if first is not None and not (first[0] == "atomic" and first[1] == "should_notify" and first[2] == ("const", 0)):
             add("C13.disarm-first", "Nucleo::<T>::tick|flat|disarm-first", "tick does not start by clearing should_notify (first protocol event: %s)" % fmt(first), known)
         # update guards
@@ -658,7 +703,15 @@ def protocol_violations(paths):
                     add(r, "Nucleo::<T>::tick|flat|update-was-canceled", "Snapshot::update runs on a path that does not establish !inner.was_canceled: results of a cancelled run reach the snapshot", known)
             fresh_at_entry = s0 is not None and not (s0 & STALE)
             spawned_before_lock = any(j < lock_pos.get(k, -1) for j in spawns)
-            if not fresh_at_entry and not spawned_before_lock:
+            # a design that compares the worker's stream with the matcher's: the run is over the current stream
+            same_stream = any(isinstance(a_, tuple) and a_ and a_[0] == "call" and a_[1] == "ptr_eq" and set(a_[2]) == {("init", ("W", k, "items")), ("init", ("self", "items"))}
+                              and v_ == 1 for a_, v_ in known.items())
+            repointed = any(e_[0] == "wstore" and e_[1] == k and e_[2] == "items" and lock_pos.get(k, -1) < i_ < i for i_, e_ in enumerate(ev))
+            if repointed and not fresh_at_entry and not spawned_before_lock:
+                for r in ("C12.stale-guard", "C06.update-guard", "C19.update-guard"):
+                    add(r, "Nucleo::<T>::tick|flat|update-after-repoint", "Snapshot::update runs after the locked worker was pointed at the current item stream: whether the finished run was over "
+                        "the old stream can no longer be told, its matches reach the snapshot of the new one", known)
+            elif not fresh_at_entry and not spawned_before_lock and not same_stream:
                 for r in ("C12.stale-guard", "C06.update-guard", "C19.update-guard"):
                     add(r, "Nucleo::<T>::tick|flat|update-stale-stream", "Snapshot::update takes the results of a run that was started before restart() (state at entry of tick is Init/Cleared and no run "
                         "has been started in this tick before the worker was locked): matches of the old item stream reach the snapshot of the new one", known)
@@ -691,7 +744,11 @@ def protocol_violations(paths):
                 if not any(e[0] == "atomic" and e[1] == "should_notify" and e[2] == ("const", 1) for e in ev[p:]):
                     add("C13.arm-under-lock", "Nucleo::<T>::tick|flat|timeout-unarmed", "the worker could not be locked within the timeout and should_notify is not set afterwards", known)
         # C12.stream-switch
-        if spawns and s0 is not None and s0 <= STALE:
+        def on_current(k_):
+            return any(isinstance(a_, tuple) and a_ and a_[0] == "call" and a_[1] == "ptr_eq" and set(a_[2]) == {("init", ("W", k_, "items")), ("init", ("self", "items"))}
+                       and v_ == 1 for a_, v_ in known.items())
+        g0 = ev[spawns[0]][1] if spawns else None
+        if spawns and s0 is not None and s0 <= STALE and not (g0 and g0[0] == "G" and on_current(g0[1])):
             s = spawns[0]
             g = ev[s][1]
             k = g[1] if g and g[0] == "G" else None
